@@ -637,6 +637,9 @@ namespace pika::mpi::experimental {
                     // decrement before invoking callback : race if invoked code checks in_flight
                     --mpi_data_.all_in_flight_;
                     PIKA_INVOKE(std::move(mpi_data_.callbacks_[index].cb_), status);
+#if defined(PIKA_VERIF)
+                    PIKA_VERIF_POINT(2011, nullptr, index, mpi_data_.callbacks_.size());
+#endif
                     pika::threads::detail::decrement_global_activity_count();
                 }
             } while (event_handled == true);
